@@ -47,6 +47,8 @@ SOURCES = [
     ['list', [3, 1, 2], 'pickle'],
     ['list', [], 'pickle'],
     ['dict', [['a', 5]], 'copy'],
+    ['special', 'falsy', True],         # None, 0, '', [], 0.0 as examples: no value may be taken for "no more data"
+    ['special', 'falsy', False],
 ]
 
 
